@@ -44,6 +44,7 @@ pub(super) trait SolveIteration<I: Interner>: SolveDatabase<I> {
         should_continue: impl std::ops::Fn() -> bool + Clone,
     ) -> Fallible<Solution<I>> {
         if !should_continue() {
+            minimums.flag_interrupted();
             return Ok(Solution::Ambig(Guidance::Unknown));
         }
 
